@@ -309,6 +309,16 @@ pub fn run_backend<B: Backend>(rec: &mut Recorder, progress: &mut std::fs::File,
                            ("noncanonical", "QUJDQR".to_string()), ("nul", "QU\0D".to_string()), ("unicode", "QUJDé".to_string()), ("dots", "QUJD.QUJD.QUJD".to_string())] {
             go(rec, parser, format!("{hdr}{body}"), json!({"base64":bc}));
         }
+        // raw bodies of 1..7 characters (valid alphabet, any count: including the counts no byte string encodes to), also as a footer
+        for n in 1..=7usize {
+            for fill in ["A", "Q", "_", "-", "9"] {
+                let body = fill.repeat(n);
+                go(rec, parser, format!("{hdr}{body}"), json!({"raw_chars":n,"fill":fill}));
+                if parser.starts_with("token") {
+                    go(rec, parser, format!("{hdr}{}.{body}", crate::b64::enc(&rng.bytes(70))), json!({"raw_chars":n,"fill":fill,"where":"footer"}));
+                }
+            }
+        }
         // every decoded length x content class
         for &len in &lens {
             for cls in classes {
